@@ -196,6 +196,7 @@ func runC02(c *eng.Ctx) {
 	ruleEpochTrimAtRecovery(c)
 	c.Floor(2)
 	c.Rule("R04.5", "K3")
+	ruleReplicaProgressSources(c)
 	ruleAddedReplicaUnconfirmed(c)
 	c.Floor(1)
 	c.Rule("R07.9", "K2")
@@ -206,28 +207,7 @@ func runC02(c *eng.Ctx) {
 	c.Floor(9)
 
 	c.Rule("R02.4", "K1")
-	if fn := c.Fn("server.(*partition).handleReplicationRequest"); fn != nil {
-		rq := eng.CallsIn(fn, "server.replicator.request")
-		if len(rq) != 1 {
-			c.Unresolved("replicator.request in handleReplicationRequest")
-		} else {
-			reqEpoch := eng.LoadNamed("LeaderEpoch", eng.Call(0, "server/protocol.UnmarshalReplicationRequest"))
-			zero := eng.CmpEdges(fn, reqEpoch, eng.IntConst(0), eng.EQ)
-			same := eng.CmpEdges(fn, reqEpoch, eng.LoadNamed("LeaderEpoch", eng.Or(eng.Param("p"), eng.LoadNamed("Partition", eng.Param("p")))), eng.EQ)
-			g, w := eng.GuardedBy(fn, rq[0].(ssa.Instruction), append(append([]eng.Edge{}, zero...), same...))
-			c.Check(g && len(same) > 0, "leader serves only requests of its own epoch", c.Pos(rq[0].(ssa.Instruction)), "req.LeaderEpoch == 0 ∨ req.LeaderEpoch == p.LeaderEpoch", "a replication request from another leader epoch is served (path "+w.String()+")")
-			isRep := eng.BoolEdges(fn, func(v ssa.Value) bool {
-				e, ok := v.(*ssa.Extract)
-				if !ok || e.Index != 1 {
-					return false
-				}
-				lk, ok := e.Tuple.(*ssa.Lookup)
-				return ok && eng.LoadNamed("replicas", nil)(lk.X)
-			}, true)
-			g2, w2 := eng.GuardedBy(fn, rq[0].(ssa.Instruction), isRep)
-			c.Check(g2 && len(isRep) > 0, "leader serves only its replicas", c.Pos(rq[0].(ssa.Instruction)), "req.ReplicaID ∈ p.replicas", "a replication request from a non-replica is served (path "+w2.String()+")")
-		}
-	}
+	ruleLeaderServesOwnEpoch(c)
 	if fn := c.Fn("server.(*partition).handleLeaderOffsetRequest"); fn != nil {
 		lo := eng.CallsIn(fn, cl+"CommitLog.LastOffsetForLeaderEpoch")
 		ok := len(lo) == 1 && eng.LoadNamed("LeaderEpoch", eng.Call(0, "server/protocol.UnmarshalLeaderEpochOffsetRequest"))(eng.AllArgs(lo[0].Common())[1])
@@ -405,4 +385,37 @@ func runC02(c *eng.Ctx) {
 	ruleTruncateShapes(c)
 	c.Floor(8)
 
+	// ---- R14.6 (shared) the timeout of the leader-offset request reaches the retry test unwrapped: a follower that does not
+	// recognise the timeout gives up after one attempt and truncates to its high watermark, which can lag the committed data
+	nSent := ruleSentinelIdentity(c, "R14.6", []string{"server.(*partition).truncateUncommitted"}, "the follower falls back to truncating at its own high watermark after a single lost request and cuts off committed messages")
+	c.Check(nSent >= 1, "truncateUncommitted recognises a timed-out offset request", "", "identity comparison with nats.ErrTimeout found", "truncateUncommitted no longer retries a timed-out leader offset request")
+
+}
+
+// ruleLeaderServesOwnEpoch (part of R02.4, shared with C04): a fetch request counts as progress of a replica only when it was
+// made in the leader's current epoch (or carries no epoch) and comes from a replica. A request of an earlier epoch reports the
+// log end of an untruncated tail; counting it lets the leader acknowledge messages the follower does not hold.
+func ruleLeaderServesOwnEpoch(c *eng.Ctx) {
+	if fn := c.Fn("server.(*partition).handleReplicationRequest"); fn != nil {
+		rq := eng.CallsIn(fn, "server.replicator.request")
+		if len(rq) != 1 {
+			c.Unresolved("replicator.request in handleReplicationRequest")
+		} else {
+			reqEpoch := eng.LoadNamed("LeaderEpoch", eng.Call(0, "server/protocol.UnmarshalReplicationRequest"))
+			zero := eng.CmpEdges(fn, reqEpoch, eng.IntConst(0), eng.EQ)
+			same := eng.CmpEdges(fn, reqEpoch, eng.LoadNamed("LeaderEpoch", eng.Or(eng.Param("p"), eng.LoadNamed("Partition", eng.Param("p")))), eng.EQ)
+			g, w := eng.GuardedBy(fn, rq[0].(ssa.Instruction), append(append([]eng.Edge{}, zero...), same...))
+			c.Check(g && len(same) > 0, "leader serves only requests of its own epoch", c.Pos(rq[0].(ssa.Instruction)), "req.LeaderEpoch == 0 ∨ req.LeaderEpoch == p.LeaderEpoch", "a replication request from another leader epoch is served (path "+w.String()+")")
+			isRep := eng.BoolEdges(fn, func(v ssa.Value) bool {
+				e, ok := v.(*ssa.Extract)
+				if !ok || e.Index != 1 {
+					return false
+				}
+				lk, ok := e.Tuple.(*ssa.Lookup)
+				return ok && eng.LoadNamed("replicas", nil)(lk.X)
+			}, true)
+			g2, w2 := eng.GuardedBy(fn, rq[0].(ssa.Instruction), isRep)
+			c.Check(g2 && len(isRep) > 0, "leader serves only its replicas", c.Pos(rq[0].(ssa.Instruction)), "req.ReplicaID ∈ p.replicas", "a replication request from a non-replica is served (path "+w2.String()+")")
+		}
+	}
 }
